@@ -10,6 +10,7 @@ PROP = {
              "request must be admitted'. Non-trivial: some request is refused while the quota is full and a later one is admitted after a release. "
              "distinct = canonical JSON of config+history"),
     "assumptions": [
+        "the gateway's log level (LOG_LEVEL: off in three cases of eight, else error / info / debug / trace; what is logged is thrown away, what a log statement does to build its arguments happens) is a generated part of every case of TestConcurrentQuotaHistories: no answer may depend on it; a failing case reports its level",
         "the cluster-liveness component is wired as main() wires it (lunar_cluster.NewLunarCluster), with the gateway instance id empty (an unset GATEWAY_INSTANCE_ID, about which main() only warns) or set, or not wired at all - a generated part of the configuration",
         "histories contain metrics-collection steps (a harness-owned otel reader collects the quota gauges through their registered callbacks, hook 6df7625)",
         "unit TestHeldAtStateOperations: requests, responses and proxy-error reports are stopped at their k-th shared-state operation boundary (hooks state.before/after:<op>) while other transactions run and collector passes happen; a stall stays below one second of virtual time in all, slots live for at least two; judged: no panic, every transaction returns, admitted-not-ending-surely-unexpired transactions never exceed the maximum, and after everything has ended and expired a new transaction is admitted (a refusal while something is held is not judged)",
